@@ -54,21 +54,27 @@ class UDPListener:
             self.sock.setsockopt(socket.SOL_SOCKET, socket.SO_BROADCAST, 1)
         self.sock.bind(('0.0.0.0', UDP_PORT))
 
-        available = MAX_MESSAGE_LEN - len(self._getMessage(2**16-1))
-        if available < 0:
-            desc_length = len(self.description.encode('utf-8'))
-            if available + desc_length < 0:
+        if len(self._getMessage(2**16-1)) > MAX_MESSAGE_LEN:
+            description = self.description
+            self.description = ''
+            if len(self._getMessage(2**16-1)) > MAX_MESSAGE_LEN:
                 self.log.warn('Equipment id and firmware name exceed 430 byte '
                               'limit, not answering to udp discovery')
                 self.is_enabled = False
             else:
                 self.log.debug('truncating description for udp discovery')
-                # with errors='ignore', cutting insite a utf-8 glyph will not
-                # report an error but remove the rest of the glyph from the
-                # output.
-                self.description = self.description \
-                                       .encode('utf-8')[:available] \
-                                       .decode('utf-8', errors='ignore')
+                # find the longest prefix (cut on a character boundary) still fitting.
+                # the encoded length counts: characters needing a JSON escape or
+                # several bytes in utf-8 take more room than one byte
+                low, high = 0, len(description)
+                while low < high:
+                    mid = (low + high + 1) // 2
+                    self.description = description[:mid]
+                    if len(self._getMessage(2**16-1)) > MAX_MESSAGE_LEN:
+                        high = mid - 1
+                    else:
+                        low = mid
+                self.description = description[:low]
 
     def _getMessage(self, port):
         return json.dumps({
@@ -80,7 +86,7 @@ class UDPListener:
         }, ensure_ascii=False, separators=(',', ':')).encode('utf-8')
 
     def run(self):
-        if self.startup_broadcast:
+        if self.startup_broadcast and self.is_enabled:
             self.log.debug('Sending startup UDP broadcast.')
             for port in self.ports:
                 self.sock.sendto(self._getMessage(port),
@@ -93,9 +99,10 @@ class UDPListener:
                 return
             try:
                 request = json.loads(msg.decode('utf-8'))
-            except json.JSONDecodeError:
+            except (ValueError, RecursionError):
+                # not utf-8, not JSON or nested too deeply
                 continue
-            if 'SECoP' not in request or request['SECoP'] != 'discover':
+            if not isinstance(request, dict) or request.get('SECoP') != 'discover':
                 continue
             self.log.debug('Answering UDP broadcast from: %s',
                            format_address(addr))
